@@ -51,6 +51,9 @@ func computeModSets(all map[*ssa.Function]bool) {
 						m[fieldName(fa)] = true
 					}
 				}
+				if fa, ok := ins.(*ssa.FieldAddr); ok && fieldAddrHandedOut(fa) {
+					m[fieldName(fa)] = true // the address goes to code that can store through it (ext_y1.go)
+				}
 			}
 		}
 		direct[fn] = m
@@ -157,6 +160,9 @@ func callMayModify(c ssa.CallInstruction, fname string) bool {
 		_ = b
 		return false
 	}
+	if callGetsFieldAddr(com, fname) {
+		return true // the address of the field is an argument and the callee can store through it (ext_y1.go)
+	}
 	if separateInstances[fname] && com.IsInvoke() {
 		// the receiver of the call is the object held in a field of the object whose field fname is
 		// tracked: a different object (see fieldNonneg)
@@ -226,6 +232,8 @@ type funcInfo struct {
 	cleanEp map[string]bool
 	// busyEpoch: epoch-join atoms being split (ext_x2.go)
 	busyEpoch map[string]bool
+	// relReady: the relations of all stores are recorded; joinsDone: classInvJoins has run (ext_y1.go)
+	relReady, joinsDone bool
 }
 
 func slotOf(v ssa.Value) (base ssa.Value, fname string, ok bool) {
@@ -1554,5 +1562,11 @@ func (fi *funcInfo) guardFacts(c ssa.Value, truth bool) []Lin {
 			out = append(out, l)
 		}
 	}
+	for _, gf := range nilErrResultFacts(sc) { // the integer results under "the error is nil" (ext_y1.go)
+		if l, ok := gf(fi, call); ok {
+			out = append(out, l)
+		}
+	}
+	out = append(out, fi.nilErrFieldFactsAt(call, sc)...) // slice fields of the object under "the error is nil" (ext_y1.go)
 	return out
 }
